@@ -35,6 +35,40 @@ CLASSES = ["open", "write", "rename", "mkdir", "close", "unlink"]
 MAXN = 60
 
 
+def random_scenarios(seed, n):
+    """Crash-reachable directory states (any number of earlier kills, saves and starts behind them):
+    final names complete or absent, temp names holding anything; then one more action to be killed."""
+    import random
+
+    rnd = random.Random(seed * 7919 + 17)
+    lens = {"id": 33, "key": 65, "pub": 65, "sl": 64}
+
+    def tmp(kind):
+        r = rnd.random()
+        if r < 0.35:
+            return "-"
+        if r < 0.5:
+            return "e"
+        if r < 0.7:
+            return "w%d" % (rnd.choice([1, 2, 3]) if kind != "sl" else rnd.choice([1, 2, 5, 6, 41]))
+        if r < 0.9:
+            v = rnd.choice([1, 2]) if kind != "sl" else 5
+            return "c%d.%d" % (v, rnd.choice([1, 2, lens[kind] // 2, lens[kind] - 2, lens[kind] - 1]))
+        return "j"
+
+    out = []
+    for _ in range(n):
+        idf = rnd.choice(["-", "w1", "w2"])
+        k = rnd.choice([1, 2, 3])
+        key, pub = rnd.choice([("-", "-"), ("w%d" % k, "-"), ("w%d" % k, "w%d" % k), ("w%d" % k, "w%d" % k)])
+        sl = rnd.choice(["-", "w1", "w5", "w6", "w42"])
+        st = "d1 %s %s %s %s %s %s %s %s" % (idf, tmp("id"), key, tmp("key"), pub, tmp("pub"), sl, tmp("sl"))
+        act = rnd.choice(["start", "start", "persist %d" % rnd.choice([0, 1, 2, 9, 13, 41]), "persist %d" % rnd.choice([5, 6]),
+                          "storeid %d" % rnd.choice([1, 2, 4])])
+        out.append(act + " " + st)
+    return out
+
+
 def extra(c):
     """Real crashes: every action is run in a child process killed (SIGKILL, by strace fault
     injection) on entry of the N-th open / write / rename / mkdir / close / unlink call, for
@@ -43,7 +77,8 @@ def extra(c):
     executable statement of C34 is evaluated on the implementation's own answers."""
     if not c.harness or "c34" not in c.drivers:
         return
-    scen = SCENARIOS_THOROUGH if c.tier == "thorough" else SCENARIOS_QUICK
+    scen = list(SCENARIOS_THOROUGH if c.tier == "thorough" else SCENARIOS_QUICK)
+    scen += random_scenarios(c.seed, 24 if c.tier == "thorough" else 4)
     from concurrent.futures import ThreadPoolExecutor
 
     def sweep(job):
